@@ -34,7 +34,8 @@ def _options(spec: dict[str, Any]) -> Any:
     if flags:
         from mypy.main import process_options
 
-        _t, o = process_options(list(flags) + ["--no-site-packages"], require_targets=False)
+        _t, o = process_options(list(flags) + ["--no-site-packages"], require_targets=False,
+                                stdout=io.StringIO(), stderr=io.StringIO())
     else:
         o = Options()
     o.error_summary = False
@@ -51,7 +52,7 @@ def _options(spec: dict[str, Any]) -> Any:
     return o
 
 
-def _build(spec: dict[str, Any]) -> tuple[Any, dict[str, Any]]:
+def _build(spec: dict[str, Any], on_write: Any = None) -> tuple[Any, dict[str, Any]]:
     from mypy import build as mb
     from mypy.errors import CompileError
     from mypy.modulefinder import BuildSource
@@ -67,6 +68,16 @@ def _build(spec: dict[str, Any]) -> tuple[Any, dict[str, Any]]:
     srcs = [BuildSource(p, m, None) for p, m in spec["sources"]]
     serr, sout = io.StringIO(), io.StringIO()
     res = None
+    if on_write is not None:
+        # observe the tree at the moment it is serialized: State.write_cache calls the module-level function
+        real_write_cache = mb.write_cache
+
+        def write_cache(id: str, path: str, tree: Any, *a: Any, **k: Any) -> Any:
+            r = real_write_cache(id, path, tree, *a, **k)
+            on_write(id, tree)
+            return r
+
+        mb.write_cache = write_cache
     try:
         res = mb.build(sources=srcs, options=o, alt_lib_path="tmp" if spec.get("fixtures") else None,
                        stdout=sout, stderr=serr)
@@ -88,14 +99,26 @@ def _sha(b: bytes) -> str:
 
 
 def cold(spec: dict[str, Any]) -> dict[str, Any]:
-    """Writer side: build everything from source with the cache enabled; dump the fresh trees."""
-    res, out = _build(spec)
+    """Writer side: build everything from source with the cache enabled; dump each freshly analysed tree right
+    after mypy serialized it (later modules of the same build may still mutate shared objects: decorators naming a
+    callable of another module, native-int promotions appended to builtins.int, ...)."""
+    dumper = c11_walk.Dumper()
+    dumps: dict[str, Any] = {}
+    dump_errors: list[str] = []
+
+    def on_write(mid: str, tree: Any) -> None:
+        try:
+            dumps[mid] = dumper.module(tree)
+        except BaseException as e:  # noqa: BLE001
+            dump_errors.append(f"{mid}: {type(e).__name__}: {e}\n{traceback.format_exc()[-1500:]}")
+
+    res, out = _build(spec, on_write)
+    if dump_errors:
+        out["dump_errors"] = dump_errors
     if res is None:
         return out
     m = res.manager
     g = res.graph
-    dumper = c11_walk.Dumper()
-    dumps: dict[str, Any] = {}
     mods: dict[str, Any] = {}
     want = set(spec.get("want_bytes") or ())
     for mid in sorted(g):
@@ -115,10 +138,8 @@ def cold(spec: dict[str, Any]) -> dict[str, Any]:
             except OSError:
                 pass
         mods[mid] = info
-        try:
-            dumps[mid] = dumper.module(tree)
-        except BaseException as e:  # noqa: BLE001
-            out.setdefault("dump_errors", []).append(f"{mid}: {type(e).__name__}: {e}\n{traceback.format_exc()[-1500:]}")
+        if tree.is_cache_skeleton:
+            info["from_cache"] = True  # a dependency taken from a pre-warmed cache: not freshly analysed here
     with open(spec["dump"], "wb") as f:
         pickle.dump(dumps, f, protocol=pickle.HIGHEST_PROTOCOL)
     out["modules"] = mods
@@ -180,11 +201,12 @@ def load(spec: dict[str, Any]) -> dict[str, Any]:
         try:
             data = m.metastore.read(g[mid].meta.data_file)
             # (iii) structural walk first: it also forces the lazy per-symbol fixup
-            d = dumper.module(tree)
             fd = fresh_dumps.get(mid)
             if fd is None:
-                info["error"] = "no fresh dump for this module"
-            else:
+                info["dependency_only"] = True
+                continue
+            d = dumper.module(tree)
+            if True:
                 diffs = c11_walk.diff(fd, d, limit=400)
                 info["tolerated"] = sum(1 for p, a, b in diffs if c11_walk.tolerated(p, a, b))
                 diffs = [x for x in diffs if not c11_walk.tolerated(*x)][:40]
@@ -196,6 +218,20 @@ def load(spec: dict[str, Any]) -> dict[str, Any]:
             ff = buf.getvalue()
             js = json_dumps(tree.serialize(), m.options.debug_cache)
             same = ff if spec["fmt"] == "ff" else js
+            if same != data:
+                saved = c11_walk.strip_backward_promotions(tree)
+                if saved:  # cross-module state re-created by fixup, see c11_walk.Dumper.type_info
+                    if spec["fmt"] == "ff":
+                        buf = WriteBuffer()
+                        tree.write(buf)
+                        same2 = buf.getvalue()
+                    else:
+                        same2 = json_dumps(tree.serialize(), m.options.debug_cache)
+                    for ti, orig in saved:
+                        ti._promote = orig
+                    if same2 == data:
+                        same = same2
+                        info["rt_modulo_backward_promotions"] = True
             info["rt_equal"] = same == data
             if same != data:
                 info["rt_first_diff"] = _first_diff(data, same)
@@ -227,6 +263,10 @@ def _first_diff(a: bytes, b: bytes) -> dict[str, Any]:
 
 def main() -> None:
     """python -m mc.c11_build <spec.pickle> <out.pickle>: cold() in a real new interpreter (own PYTHONHASHSEED)."""
+    if os.environ.get("C11_FAULT"):  # detection demos only (mc/c11_faults.py); never set by ./check
+        from mc import c11_faults
+
+        c11_faults.apply(os.environ["C11_FAULT"])
     with open(sys.argv[1], "rb") as f:
         spec = pickle.load(f)
     out = cold(spec)
